@@ -55,7 +55,7 @@ func intInfo(b *types.Basic) (w int, signed bool, ok bool) {
 }
 
 func isIntType(t types.Type) (int, bool, bool) {
-	if b, ok := t.Underlying().(*types.Basic); ok {
+	if b, ok := U(t).(*types.Basic); ok {
 		return intInfo(b)
 	}
 	return 0, false, false
@@ -90,6 +90,67 @@ func isIdentByte(c byte) bool {
 	return c == '_' || (c >= 'a' && c <= 'z') || (c >= 'A' && c <= 'Z') || (c >= '0' && c <= '9')
 }
 
+// coreOf: the single core type of a type parameter whose constraint is (or embeds) ~T0, else nil.
+// useCoreTypes is set per contract (clause `coretypes`): by default type parameters are abstract
+// value sorts, which keeps equality and map keys exact; functions that index into a value whose
+// type parameter is constrained to ~[N]T opt into the representation view.
+var useCoreTypes bool
+
+func coreOf(t types.Type) types.Type {
+	if !useCoreTypes {
+		return nil
+	}
+	tp, ok := types.Unalias(t).(*types.TypeParam)
+	if !ok {
+		return nil
+	}
+	var find func(it *types.Interface, depth int) types.Type
+	find = func(it *types.Interface, depth int) types.Type {
+		if depth > 4 {
+			return nil
+		}
+		for i := 0; i < it.NumEmbeddeds(); i++ {
+			switch e := types.Unalias(it.EmbeddedType(i)).(type) {
+			case *types.Union:
+				if e.Len() == 1 {
+					return e.Term(0).Type()
+				}
+			case *types.Named:
+				if in, ok := e.Underlying().(*types.Interface); ok {
+					if c := find(in, depth+1); c != nil {
+						return c
+					}
+				}
+			case *types.Interface:
+				if c := find(e, depth+1); c != nil {
+					return c
+				}
+			}
+		}
+		return nil
+	}
+	it, ok := tp.Constraint().Underlying().(*types.Interface)
+	if !ok {
+		return nil
+	}
+	return find(it, 0)
+}
+
+// U is Underlying(), except that a type parameter with a core type (constraint ~T0) is its
+// core type: values of such a parameter have T0's representation in every instantiation.
+func U(t types.Type) types.Type {
+	if c := coreOf(t); c != nil {
+		return c.Underlying()
+	}
+	return t.Underlying()
+}
+
+// isAbstractTP: a type parameter without a core type (an opaque value sort).
+func isAbstractTP(t types.Type) bool {
+	_, ok := types.Unalias(t).(*types.TypeParam)
+	return ok && coreOf(t) == nil
+}
+
 func typeKey(t types.Type) string {
 	return types.TypeString(t, func(p *types.Package) string { return p.Path() })
 }
@@ -120,12 +181,12 @@ func (tt *TypeTable) SortOf(t types.Type) (Sort, error) {
 	if s, ok := tt.isOpaque(t); ok {
 		return s, nil
 	}
-	if tp, ok := types.Unalias(t).(*types.TypeParam); ok {
+	if tp, ok := types.Unalias(t).(*types.TypeParam); ok && coreOf(t) == nil {
 		s := Sort("TP!" + sanitize(tp.Obj().Name()))
 		tt.opaqueS[string(s)] = true
 		return s, nil
 	}
-	switch u := t.Underlying().(type) {
+	switch u := U(t).(type) {
 	case *types.Basic:
 		if u.Kind() == types.Bool || u.Kind() == types.UntypedBool {
 			return SBool, nil
@@ -231,10 +292,10 @@ func (tt *TypeTable) isAggregate(t types.Type) bool {
 	if _, ok := tt.isOpaque(t); ok {
 		return false
 	}
-	if _, ok := types.Unalias(t).(*types.TypeParam); ok {
+	if isAbstractTP(t) {
 		return false
 	}
-	switch t.Underlying().(type) {
+	switch U(t).(type) {
 	case *types.Struct, *types.Array:
 		return true
 	}
@@ -248,10 +309,10 @@ func (tt *TypeTable) Slots(t types.Type) int64 {
 	if _, ok := tt.isOpaque(t); ok {
 		return 1
 	}
-	if _, ok := types.Unalias(t).(*types.TypeParam); ok {
+	if isAbstractTP(t) {
 		return 1
 	}
-	switch u := t.Underlying().(type) {
+	switch u := U(t).(type) {
 	case *types.Struct:
 		n := int64(1)
 		for i := 0; i < u.NumFields(); i++ {
